@@ -15,8 +15,8 @@ import (
 
 func init() { extraGens["QueryBatchFacts"] = genQueryBatchFacts }
 
-// returnsError: the block ends with `return X, <non-nil>`
-func returnsError(b *ast.BlockStmt) bool {
+// fltReturnsError: the block ends with `return X, <non-nil>`
+func fltReturnsError(b *ast.BlockStmt) bool {
 	if b == nil || len(b.List) == 0 {
 		return false
 	}
@@ -28,7 +28,7 @@ func returnsError(b *ast.BlockStmt) bool {
 	return last != "nil"
 }
 
-func endsWithContinue(b *ast.BlockStmt) bool {
+func fltEndsWithContinue(b *ast.BlockStmt) bool {
 	if b == nil || len(b.List) == 0 {
 		return false
 	}
@@ -46,7 +46,7 @@ func genQueryBatchFacts(repo string) string {
 	// sendRequest: status check
 	if fd := findFunc(parseFile(filepath.Join(repo, "queryer", "fetch.go")), "sendRequest", "MultiOpQueryer"); fd != nil && fd.Body != nil {
 		for _, st := range fd.Body.List {
-			if ifs, ok := st.(*ast.IfStmt); ok && norm(ifs.Cond) == "resp.StatusCode < 200 || resp.StatusCode > 299" && returnsError(ifs.Body) {
+			if ifs, ok := st.(*ast.IfStmt); ok && norm(ifs.Cond) == "resp.StatusCode < 200 || resp.StatusCode > 299" && fltReturnsError(ifs.Body) {
 				F.status = true
 			}
 		}
@@ -55,7 +55,7 @@ func genQueryBatchFacts(repo string) string {
 	if fd := findFunc(parseFile(filepath.Join(repo, "queryer", "multiop_queryer.go")), "queryBatch", "MultiOpQueryer"); fd != nil && fd.Body != nil {
 		fetchIdx, rangeIdx := -1, -1
 		for idx, st := range fd.Body.List {
-			if rhsCall(st) == "q.fetch" && strings.HasPrefix(norm(st), "resps, err :=") {
+			if fltRhsCall(st) == "q.fetch" && strings.HasPrefix(norm(st), "resps, err :=") {
 				fetchIdx = idx
 				foundFetch = true
 			}
@@ -69,15 +69,15 @@ func genQueryBatchFacts(repo string) string {
 						cond := norm(s.Cond)
 						switch {
 						case cond == "len(resp.Errors) != 0" && !sawData && !foundAssign:
-							if returnsError(s.Body) && strings.Contains(norm(s.Body), "return nil, resp.Errors") {
+							if fltReturnsError(s.Body) && strings.Contains(norm(s.Body), "return nil, resp.Errors") {
 								sawErrors = true
-							} else if endsWithContinue(s.Body) && strings.Contains(norm(s.Body), "errs = append(errs, resp.Errors...)") {
+							} else if fltEndsWithContinue(s.Body) && strings.Contains(norm(s.Body), "errs = append(errs, resp.Errors...)") {
 								sawErrors, collects = true, true
 							}
 						case cond == "resp.Data == nil" && !foundAssign:
-							if returnsError(s.Body) && !collects {
+							if fltReturnsError(s.Body) && !collects {
 								sawData = true
-							} else if endsWithContinue(s.Body) && strings.Contains(norm(s.Body), "errs = append(errs,") && collects {
+							} else if fltEndsWithContinue(s.Body) && strings.Contains(norm(s.Body), "errs = append(errs,") && collects {
 								sawData = true
 							}
 						}
@@ -92,7 +92,7 @@ func genQueryBatchFacts(repo string) string {
 		}
 		if fetchIdx >= 0 && rangeIdx > fetchIdx {
 			for _, st := range fd.Body.List[fetchIdx+1 : rangeIdx] {
-				if ifs, ok := st.(*ast.IfStmt); ok && returnsError(ifs.Body) {
+				if ifs, ok := st.(*ast.IfStmt); ok && fltReturnsError(ifs.Body) {
 					c := norm(ifs.Cond)
 					if c == "len(resps) != len(inputsToFetch)" || c == "len(inputsToFetch) != len(resps)" {
 						F.length = true
@@ -117,11 +117,11 @@ func genQueryBatchFacts(repo string) string {
 	if fd := findFunc(parseFile(filepath.Join(repo, "executor", "depth_executor_query.go")), "executeRequests", "DepthExecutor"); fd != nil && fd.Body != nil {
 		qIdx := -1
 		for idx, st := range fd.Body.List {
-			if rhsCall(st) == "q.Query" {
+			if fltRhsCall(st) == "q.Query" {
 				qIdx = idx
 				foundQuery = true
 			}
-			if ifs, ok := st.(*ast.IfStmt); ok && qIdx >= 0 && norm(ifs.Cond) == "len(resps) != len(batchRequest)" && returnsError(ifs.Body) {
+			if ifs, ok := st.(*ast.IfStmt); ok && qIdx >= 0 && norm(ifs.Cond) == "len(resps) != len(batchRequest)" && fltReturnsError(ifs.Body) {
 				F.execLen = true
 			}
 			if strings.HasPrefix(norm(st), "qResps :=") {
@@ -141,7 +141,7 @@ func genQueryBatchFacts(repo string) string {
 				if strings.HasPrefix(txt, "qr, ok := queryResult[common.NodeFieldName]") {
 					foundNodeLookup = true
 					if i+1 < len(blk.List) {
-						if ifs, ok := blk.List[i+1].(*ast.IfStmt); ok && norm(ifs.Cond) == "!ok" && returnsError(ifs.Body) {
+						if ifs, ok := blk.List[i+1].(*ast.IfStmt); ok && norm(ifs.Cond) == "!ok" && fltReturnsError(ifs.Body) {
 							F.nodeMissing = true
 						}
 					}
@@ -149,7 +149,7 @@ func genQueryBatchFacts(repo string) string {
 				if strings.HasPrefix(txt, "qrMap, ok := qr.(map[string]interface{})") {
 					foundNodeCast = true
 					if i+1 < len(blk.List) {
-						if ifs, ok := blk.List[i+1].(*ast.IfStmt); ok && norm(ifs.Cond) == "!ok" && returnsError(ifs.Body) {
+						if ifs, ok := blk.List[i+1].(*ast.IfStmt); ok && norm(ifs.Cond) == "!ok" && fltReturnsError(ifs.Body) {
 							F.nodeNotMap = true
 						}
 					}
@@ -167,7 +167,7 @@ func genQueryBatchFacts(repo string) string {
 			}
 			foundRootLoop = true
 			if len(rs.Body.List) > 0 {
-				if ifs, ok := rs.Body.List[0].(*ast.IfStmt); ok && returnsError(ifs.Body) {
+				if ifs, ok := rs.Body.List[0].(*ast.IfStmt); ok && fltReturnsError(ifs.Body) {
 					c := norm(ifs.Cond)
 					if c == "i >= len(rootList)" || c == "len(rootList) <= i" {
 						F.rootList = true
